@@ -88,6 +88,18 @@ def run_op(p, e, op, stash=None, meta=True, shared=None):
         if kind == 'lex':
             gen = p.lex(W.as_input(e, op[1]), dont_ignore=True) if (len(op) > 4 and op[4]) else p.lex(W.as_input(e, op[1]))
             return {'tokens': _drain(gen, op[2], close=(len(op) > 3 and op[3]))}
+        if kind == 'lex_hold':
+            # consume k tokens, then keep the half-consumed generator referenced (never touched again) while later calls run
+            gen = p.lex(W.as_input(e, op[1]))
+            out = _drain(gen, op[2])
+            stash.setdefault('held', []).append(gen)
+            return {'tokens': out}
+        if kind == 'session_hold':
+            ip = p.parse_interactive(W.as_input(e, op[1]), start=op[2])
+            it = ip.iter_parse()
+            out = _drain(it, op[3])
+            stash.setdefault('held', []).append((ip, it))
+            return {'tokens': out}
         if kind == 'lex_late':
             stash['late'] = ('lex', p.lex(W.as_input(e, op[1])))
             return {'stashed': True}
@@ -192,4 +204,6 @@ def eager_form(op):
         return ['scan', op[1], op[2], None]
     if op[0] == 'parse_keep':
         return ['resume_stored', op[1], op[2]]
+    if op[0] == 'lex_hold':
+        return ['lex', op[1], op[2], False]
     return op
